@@ -11,6 +11,7 @@ mod m_cmp;
 mod m_sliceiter;
 mod m_chars;
 mod m_rangeiter;
+mod m_split;
 
 use common::*;
 use rand::{rngs::SmallRng, SeedableRng};
@@ -27,6 +28,7 @@ fn replay_line(s: &mut Summary, v: &V) {
         "SliceIter" => m_sliceiter::replay(s, v),
         "Chars" => m_chars::replay(s, v),
         "RangeIter" => m_rangeiter::replay(s, v),
+        "Split" => m_split::replay(s, v),
         m => panic!("kh: unknown module {m}"),
     }
 }
@@ -80,6 +82,7 @@ fn main() {
                 "Cmp" => m_cmp::record(&mut rng, n, &mut out),
                 "SliceIter" => m_sliceiter::record(&mut rng, n, &mut out),
                 "Chars" => m_chars::record(&mut rng, n, &mut out),
+                "Split" => m_split::record(&mut rng, n, &mut out),
                 "RangeIter-u16" => m_rangeiter::record("u16", &mut rng, n, &mut out),
                 "RangeIter-i16" => m_rangeiter::record("i16", &mut rng, n, &mut out),
                 "RangeIter-char" => m_rangeiter::record("char", &mut rng, n, &mut out),
